@@ -22,6 +22,8 @@ const (
 	sBlock
 	sPanic
 	sBlockPooled // block by resetting the pooled result of the context
+	sBlockBare   // block in place with the block type only (no message, rule or value)
+	sBlockMsg    // block in place with type and message only
 )
 
 type SlotSpec struct {
@@ -45,9 +47,9 @@ func (P) Engine() string { return "E1" }
 
 func (P) Describe() harness.Description {
 	return harness.Description{
-		MustHit: []string{"colliding_orders", "long_chain_with_ties", "blocked_by_first_blocker", "panic_in_prepare", "panic_in_check", "panic_in_stat", "exit_handler_panicked", "block_error_checked_after_reuse", "pool_object_reused"},
+		MustHit: []string{"blocked_in_place_with_partial_cause", "colliding_orders", "long_chain_with_ties", "blocked_by_first_blocker", "panic_in_prepare", "panic_in_check", "panic_in_stat", "exit_handler_panicked", "block_error_checked_after_reuse", "pool_object_reused"},
 		Level:   "exploration",
-		Rule: "case = (chain of 0-5 (in 12% of the kinds 6-40) prepare, rule-check and statistic recording slots with arbitrary and colliding order values, each scripted per entry to pass / return nil / block (fresh or pooled result) / panic; exit handlers that panic; 2-8 entries entered and exited in any order so that pooled contexts and results are recycled under a seeded pool policy). " +
+		Rule: "case = (chain of 0-5 (in 12% of the kinds 6-40) prepare, rule-check and statistic recording slots with arbitrary and colliding order values, each scripted per entry to pass / return nil / block (fresh result, or the pooled result reset in place with the full cause, the type only, or type and message) / panic; exit handlers that panic; 2-8 entries entered and exited in any order so that pooled contexts and results are recycled under a seeded pool policy). " +
 			"Oracle: the call log of every Entry equals the stable sort by order of each slot kind, prepare -> rule check -> statistic; the first blocking rule-check slot defines the returned block error and no later rule-check slot runs; without panics every statistic slot is told the outcome exactly once and the completion exactly when the entry had passed; no panic escapes Entry or Exit and a panicking request is admitted; every returned *BlockError keeps its type, message, rule and value while later entries run. " +
 			"non-trivial = a block and a panic occurred in one run with colliding orders; distinct = hash(config, ops)",
 		Assumptions: []string{"for entries in which a slot or exit handler panicked only 'no panic escapes' and 'the request is admitted' are asserted (the statement exempts statistic notifications under panics)"},
@@ -83,7 +85,7 @@ func (P) Gen(rng *sim.Rng, tier string) *harness.Case {
 					case 1, 2:
 						s = sBlock
 					case 3:
-						s = sBlockPooled
+						s = []int{sBlockPooled, sBlockPooled, sBlockBare, sBlockMsg}[rng.Intn(4)]
 					case 4:
 						if rng.Chance(0.5) {
 							s = sPanic
@@ -179,6 +181,12 @@ func (s *check) Check(ctx *base.EntryContext) *base.TokenResult {
 		return base.NewTokenResultBlockedWithCause(base.BlockTypeFlow, fmt.Sprintf("blocked by slot %d for entry %d", s.id, e), s.rule, float64(s.id*1000+e))
 	case sBlockPooled:
 		ctx.RuleCheckResult.ResetToBlockedWithCause(base.BlockTypeIsolation, fmt.Sprintf("blocked by slot %d for entry %d", s.id, e), s.rule, float64(s.id*1000+e))
+		return ctx.RuleCheckResult
+	case sBlockBare:
+		ctx.RuleCheckResult.ResetToBlocked(base.BlockTypeSystemFlow)
+		return ctx.RuleCheckResult
+	case sBlockMsg:
+		ctx.RuleCheckResult.ResetToBlockedWithMessage(base.BlockTypeHotSpotParamFlow, fmt.Sprintf("blocked by slot %d for entry %d", s.id, e))
 		return ctx.RuleCheckResult
 	case sPanic:
 		panic(fmt.Sprintf("scripted panic in rule-check slot %d", s.id))
@@ -319,7 +327,7 @@ func (P) Exec(c *harness.Case) *harness.Outcome {
 						o.Probe("panic_in_check")
 						break
 					}
-					if s == sBlock || s == sBlockPooled {
+					if s == sBlock || s == sBlockPooled || s == sBlockBare || s == sBlockMsg {
 						blocked, blockBy = true, id
 						break
 					}
@@ -373,12 +381,26 @@ func (P) Exec(c *harness.Case) *harness.Outcome {
 					return o
 				}
 				wantType := base.BlockTypeFlow
-				if scriptOf(blockBy, k) == sBlockPooled {
-					wantType = base.BlockTypeIsolation
-				}
 				wantMsg := fmt.Sprintf("blocked by slot %d for entry %d", blockBy, k)
-				if be.BlockType() != wantType || be.BlockMsg() != wantMsg || be.TriggeredValue() != float64(blockBy*1000+k) || be.TriggeredRule() == nil || be.TriggeredRule().ResourceName() != fmt.Sprintf("rule-of-slot-%d", blockBy) {
-					o.Fail("C16.wrong-block-error", step, "entry %d: returned block error {%s %q %v %v}, the first blocking slot %d produced {%s %q rule-of-slot-%d %v}", k, be.BlockType(), be.BlockMsg(), be.TriggeredRule(), be.TriggeredValue(), blockBy, wantType, wantMsg, blockBy, float64(blockBy*1000+k))
+				wantRule, wantVal := fmt.Sprintf("rule-of-slot-%d", blockBy), interface{}(float64(blockBy*1000+k))
+				switch scriptOf(blockBy, k) {
+				case sBlockPooled:
+					wantType = base.BlockTypeIsolation
+				case sBlockBare:
+					// blocked in place with the type only: nothing else may be carried, in particular nothing that an
+					// earlier entry left in the pooled result
+					wantType, wantMsg, wantRule, wantVal = base.BlockTypeSystemFlow, "", "", nil
+					o.Probe("blocked_in_place_with_partial_cause")
+				case sBlockMsg:
+					wantType, wantRule, wantVal = base.BlockTypeHotSpotParamFlow, "", nil
+					o.Probe("blocked_in_place_with_partial_cause")
+				}
+				gotRule := ""
+				if be.TriggeredRule() != nil {
+					gotRule = be.TriggeredRule().ResourceName()
+				}
+				if be.BlockType() != wantType || be.BlockMsg() != wantMsg || be.TriggeredValue() != wantVal || gotRule != wantRule {
+					o.Fail("C16.wrong-block-error", step, "entry %d: returned block error {%s %q %q %v}, the first blocking slot %d produced {%s %q %q %v}", k, be.BlockType(), be.BlockMsg(), gotRule, be.TriggeredValue(), blockBy, wantType, wantMsg, wantRule, wantVal)
 					return o
 				}
 				snaps = append(snaps, beSnap{be, be.BlockType(), be.BlockMsg(), be.TriggeredRule(), be.TriggeredValue(), k})
